@@ -78,7 +78,7 @@ E_Complete(c, S) ==
 G_EnterInitial(S) == S.life = "initialized"
 E_EnterInitial(c, S) ==
     LET M1 == EnterInitialStates(c, Z(S))
-    IN  Result("running", AfterMicro({}, M1), M1, "MICROSTEPPED")
+    IN  Result("running", AfterMicro(S.flags \cap {"CANCELLED"}, M1), M1, "MICROSTEPPED")
 
 Running(S) == S.life = "running" /\ "TOPFINAL" \notin S.flags
 
@@ -210,16 +210,23 @@ StepName == NameOf(Cur)
 (***************************************************************************)
 \* Interpreter::receive(): the queues exist once the interpreter was initialised
 EnvReceive(name) ==
-    /\ life # "instantiated"
+    /\ TRUE      \* in every life-cycle state, also before the first step() (C10)
     /\ m' = [m EXCEPT !.eq = Append(@, Ev(name))]
     /\ UNCHANGED <<ci, life, flags, ret, rootEntries>>
 
 \* Interpreter::cancel(): mark, and wake a blocked step() with an empty event
 EnvCancel ==
-    /\ life # "instantiated"
+    /\ TRUE      \* in every life-cycle state
     /\ flags' = flags \cup {"CANCELLED"}
     /\ m' = [m EXCEPT !.eq = Append(@, Ev(<<>>))]     \* the empty event that unblocks step()
     /\ UNCHANGED <<ci, life, ret, rootEntries>>
+
+\* Interpreter::reset(): "a reset interpreter behaves like a freshly created one" (C10) --
+\* configuration, history, data, both queues, cancellation mark: everything starts over
+EnvReset ==
+    /\ life' = "instantiated" /\ flags' = {} /\ m' = InitialM(C)
+    /\ ret' = "INSTANTIATED" /\ rootEntries' = 0
+    /\ UNCHANGED ci
 
 \* C14: serialize() at a stable point and deserialize() into a fresh interpreter for the same
 \* document.  Every abstract variable is unchanged -- configuration, history, initialised
